@@ -126,6 +126,10 @@ def top_of(ty):
     return (lo, hi, EMPTY, False)
 
 
+def _small(v):
+    return isinstance(v[0], int) and isinstance(v[1], int) and v[0] >= 0 and v[1] <= 65536
+
+
 def vjoin(a, b):
     if a is None:
         return b
@@ -137,7 +141,10 @@ def vjoin(a, b):
         return (b[0], b[1], a[2] | b[2], b[3])
     if b[0] == "bot":
         return (a[0], a[1], a[2] | b[2], a[3])
-    return (min(a[0], b[0]), max(a[1], b[1]), a[2] | b[2], a[3] and b[3])
+    # "bounded by the input length" survives a join with a value that is small in its own right (a count read from a 16-bit
+    # field): either way an allocation of that many elements stays in proportion to the input or is small
+    inlen = (a[3] and b[3]) or (a[3] and _small(b)) or (b[3] and _small(a))
+    return (min(a[0], b[0]), max(a[1], b[1]), a[2] | b[2], inlen)
 
 
 def clip(lo, hi, ty):
@@ -1847,6 +1854,13 @@ class FnPass:
                     else:
                         lo, hi = tlo - 1, thi + 1
                     status = "safe" if (lo >= tlo and hi <= thi) else "unsafe"
+                    if status == "unsafe" and opn == "Sub" and tlo == 0 and hi <= thi:
+                        # a - b on unsigned operands under a dominating `b <= a` (the `a < b` arm returned / short-circuited)
+                        try:
+                            if self.prove_le(st, ops[1], ops[0]):
+                                status = "safe"
+                        except Exception:
+                            pass
                     if status == "unsafe":
                         # the overflow must not hinge on an operand whose range is simply unknown (no byte source of its own,
                         # e.g. the length of an internal buffer): would the operation still overflow with that operand at its
